@@ -98,6 +98,11 @@ theorem html_output_retokenises_lexshape_counterexample :
     type_of% @Verif.Proofs.C09Html.html_output_retokenises_lexshape_counterexample :=
   @Verif.Proofs.C09Html.html_output_retokenises_lexshape_counterexample
 
+/-- **HTML text**: a text token without a raw `<` is written without `<` — `&lt;` / `&#60;` / `&#x3C;` / `&LT` stay escaped —
+    for all options (whole regenerated entity tables) -/
+theorem html_text_lt_stays_escaped : type_of% @Verif.Proofs.C09Html.html_text_lt_stays_escaped :=
+  @Verif.Proofs.C09Html.html_text_lt_stays_escaped
+
 /-- html.go's reference decoding creates a tag from the text `<&#98;>` (K-C09-HTML-10) -/
 theorem html_text_safe_not_preserved : type_of% @Verif.Proofs.C09Html.html_text_safe_not_preserved :=
   @Verif.Proofs.C09Html.html_text_safe_not_preserved
